@@ -2,7 +2,10 @@ package main
 
 import (
 	"fmt"
+	"go/token"
 	"go/types"
+	"sort"
+	"strings"
 
 	"golang.org/x/tools/go/ssa"
 )
@@ -129,6 +132,136 @@ func (p *Prog) blankRunResults(f *ssa.Function) []ssa.Value {
 	return out
 }
 
+// blankWriterHelper: the count parameter of f when f writes a run of blanks into a builder/writer it is handed
+// (writePadding(sb, n)): one integer parameter, no result (or an error), and every write in it is of ASCII-run material.
+func (p *Prog) blankWriterHelper(f *ssa.Function) *ssa.Parameter {
+	if f == nil || f.Blocks == nil || len(f.Params) < 2 || f.Signature.Results().Len() > 1 {
+		return nil
+	}
+	var cnt *ssa.Parameter
+	for _, prm := range f.Params {
+		if b, ok := prm.Type().Underlying().(*types.Basic); ok && b.Info()&types.IsInteger != 0 {
+			if cnt != nil {
+				return nil
+			}
+			cnt = prm
+		}
+	}
+	if cnt == nil {
+		return nil
+	}
+	writes := 0
+	for _, call := range callsIn(f) {
+		n := calleeFullName(call.Common())
+		switch n {
+		case "(*strings.Builder).WriteString", "(*bytes.Buffer).WriteString", "io.WriteString", "(*bufio.Writer).WriteString":
+			a := call.Common().Args[len(call.Common().Args)-1]
+			if sl, ok := strip(a).(*ssa.Slice); ok {
+				a = sl.X
+			}
+			if !p.asciiRun(a) {
+				return nil
+			}
+			writes++
+		case "(*strings.Builder).WriteByte", "(*bytes.Buffer).WriteByte", "(*bufio.Writer).WriteByte":
+			if k, ok := constInt(call.Common().Args[1]); !ok || k >= 0x80 {
+				return nil
+			}
+			writes++
+		case "builtin min", "builtin len":
+		default:
+			return nil
+		}
+	}
+	if writes == 0 {
+		return nil
+	}
+	return cnt
+}
+
+// blankWriterExact: the helper writes exactly n blanks. Two loop forms are understood: chunks (`for n > 0 { k := min(n,
+// len(chunk)); w(chunk[:k]); n -= k }`) and one blank per round (`for i := 0; i < n; i++ { w(' ') }`).
+func (c *Ctx) blankWriterExact(f *ssa.Function, cnt *ssa.Parameter) (bool, string) {
+	for _, call := range callsIn(f) {
+		if !inCycle(call.Block()) {
+			return false, "a write outside the loop adds blanks that were not asked for"
+		}
+		args := call.Common().Args
+		switch calleeFullName(call.Common()) {
+		case "builtin min", "builtin len":
+			continue
+		}
+		sl, isSlice := strip(args[len(args)-1]).(*ssa.Slice)
+		if !isSlice {
+			if _, isByte := constInt(args[len(args)-1]); isByte {
+				// one blank per round: the loop runs while a counter from 0 stepping by 1 is below n
+				ok := false
+				for _, bf := range directFacts(f) {
+					if bf.A.Kind == "cmp" && bf.A.Op == token.LSS && bf.Holds && strip(bf.A.Y) == ssa.Value(cnt) {
+						if ph, isPhi := strip(bf.A.X).(*ssa.Phi); isPhi && len(ph.Edges) == 2 {
+							if k, isK := constInt(ph.Edges[0]); isK && k == 0 {
+								if st, isAdd := ph.Edges[1].(*ssa.BinOp); isAdd && st.Op == token.ADD && st.X == ssa.Value(ph) {
+									if one, isK := constInt(st.Y); isK && one == 1 {
+										ok = true
+									}
+								}
+							}
+						}
+					}
+				}
+				if !ok {
+					return false, "the loop writing one blank per round is not `for i := 0; i < n; i++`"
+				}
+				continue
+			}
+			return false, "a whole run is written per round, whatever is left to write"
+		}
+		k := sl.High
+		if sl.Low != nil {
+			if z, isK := constInt(sl.Low); !isK || z != 0 {
+				return false, "the chunk is not sliced from its start"
+			}
+		}
+		mn, isMin := strip(k).(*ssa.Call)
+		if k == nil || !isMin || calleeFullName(&mn.Call) != "builtin min" || len(mn.Call.Args) != 2 {
+			return false, "the length written per round is not min(left, len(chunk))"
+		}
+		var left *ssa.Phi
+		for _, a := range mn.Call.Args {
+			if ph, isPhi := strip(a).(*ssa.Phi); isPhi {
+				left = ph
+			}
+		}
+		if left == nil {
+			return false, "the length written per round does not depend on what is left to write"
+		}
+		fromParam, stepped := false, false
+		for _, e := range left.Edges {
+			if strip(e) == ssa.Value(cnt) {
+				fromParam = true
+			}
+			if sub, isSub := e.(*ssa.BinOp); isSub && sub.Op == token.SUB && sub.X == ssa.Value(left) && strip(sub.Y) == ssa.Value(mn) {
+				stepped = true
+			}
+		}
+		if !fromParam || !stepped {
+			return false, "what is left to write does not start at n and go down by exactly what was written"
+		}
+		whilePos := false
+		for _, bf := range directFacts(f) {
+			if bf.A.Kind == "cmp" && bf.A.Op == token.GTR && bf.Holds && strip(bf.A.X) == ssa.Value(left) {
+				if z, isK := constInt(bf.A.Y); isK && z == 0 {
+					whilePos = true
+				}
+			}
+		}
+		if !whilePos {
+			return false, "the loop does not run while something is left to write (n > 0)"
+		}
+	}
+	return true, ""
+}
+
 // paddingCalls: the calls in f that produce a run of blanks - strings.Repeat and calls to blank-run helpers - with the
 // count argument of each.
 func (c *Ctx) paddingCalls(f *ssa.Function) (calls []ssa.CallInstruction, counts []ssa.Value) {
@@ -141,6 +274,11 @@ func (c *Ctx) paddingCalls(f *ssa.Function) (calls []ssa.CallInstruction, counts
 		if cal := calleeOf(call.Common()); cal != nil && cal.Pkg == c.Ergo && c.blankRunHelper(cal) != nil && len(call.Common().Args) == 1 {
 			calls = append(calls, call)
 			counts = append(counts, call.Common().Args[0])
+		} else if cal != nil && cal.Pkg == c.Ergo {
+			if prm := c.blankWriterHelper(cal); prm != nil && paramIndex(prm) < len(call.Common().Args) {
+				calls = append(calls, call)
+				counts = append(counts, call.Common().Args[paramIndex(prm)])
+			}
 		}
 	}
 	return
@@ -153,6 +291,12 @@ func (c *Ctx) paddingCalls(f *ssa.Function) (calls []ssa.CallInstruction, counts
 func (c *Ctx) blankRunExact() {
 	for _, f := range c.Fns {
 		if f.Pkg != c.Ergo {
+			continue
+		}
+		if wp := c.blankWriterHelper(f); wp != nil {
+			ok, why := c.blankWriterExact(f, wp)
+			c.check(ok, c.Name(f), "blank-run-exact#1", c.FnPos(f), "the helper writes exactly the asked number of blanks",
+				"this padding helper does not write exactly the asked number of blanks ("+why+"): gaps come out short or long and the id column of those rows leaves its place")
 			continue
 		}
 		par := c.blankRunHelper(f)
@@ -180,5 +324,169 @@ func (c *Ctx) blankRunExact() {
 			c.check(exact, c.Name(f), fmt.Sprintf("blank-run-exact#%d", k), c.Pos(v.Pos()), "the run handed back has exactly the asked length (the count is the parameter itself)",
 				"this padding helper does not hand back the asked number of blanks (its count is "+c.canon(cnt)+", not the parameter): a gap wider than the helper's limit - a wide terminal, a short title - comes out short and the id column of that row leaves its place")
 		}
+	}
+}
+
+// ------------------------------------------------------------------ OU21
+
+func init() {
+	register(&Rule{ID: "OU21", Min: 1, Run: ruleOU21,
+		Doc: "summary-scope-follows-the-view: wherever list has established that the view is focused on one epic (on the non-empty edge of the EpicID option) the task list its summary statistics are computed from derives from that epic id (the epic's children, or a filter of them) - not from one of the store-wide collections: a summary that counts the whole store under an epic's rows contradicts `list --json --epic` and the rows above it. Decided per call site of the statistics function, following the list through closure and helper parameters to each caller"})
+}
+
+func ruleOU21(c *Ctx) {
+	rl := c.ErgoFn("RunList")
+	if rl == nil {
+		c.unk("ergo.RunList", "anchor", "-", "RunList not found")
+		return
+	}
+	unit := map[*ssa.Function]bool{}
+	for _, g := range c.unitOf(rl) {
+		unit[g] = true
+	}
+	isStats := func(f *ssa.Function) bool {
+		if f == nil || !c.InModule(f) || len(f.Params) == 0 || f.Signature.Results().Len() != 1 {
+			return false
+		}
+		if !strings.Contains(strings.ToLower(namedTypeName(f.Signature.Results().At(0).Type())), "stats") {
+			return false
+		}
+		sl, ok := f.Params[0].Type().Underlying().(*types.Slice)
+		return ok && strings.HasSuffix(sl.Elem().String(), "ergo.Task")
+	}
+	type site struct {
+		fn   *ssa.Function
+		call ssa.CallInstruction
+		arg  ssa.Value
+		via  string
+	}
+	var sites []site
+	var expand func(fn *ssa.Function, call ssa.CallInstruction, arg ssa.Value, via string, d int)
+	expand = func(fn *ssa.Function, call ssa.CallInstruction, arg ssa.Value, via string, d int) {
+		if prm, ok := resolve(arg).(*ssa.Parameter); ok && d < 3 && len(c.callers[prm.Parent()]) > 0 {
+			for _, cs := range c.callers[prm.Parent()] {
+				i := paramIndex(prm)
+				if i < len(cs.Call.Common().Args) {
+					expand(cs.Fn, cs.Call, cs.Call.Common().Args[i], via+" via "+c.Name(prm.Parent()), d+1)
+				}
+			}
+			return
+		}
+		sites = append(sites, site{fn, call, arg, via})
+	}
+	for g := range unit {
+		for _, call := range callsIn(g) {
+			if cal := calleeOf(call.Common()); isStats(cal) {
+				expand(g, call, call.Common().Args[0], "", 0)
+			}
+		}
+	}
+	sort.SliceStable(sites, func(i, j int) bool { return sites[i].call.Pos() < sites[j].call.Pos() })
+	isEpicOpt := func(v ssa.Value) bool {
+		if _, n, ok := fieldLoad(strip(v)); ok && (n == "EpicID" || n == "EpicFlag") {
+			return true
+		}
+		_, n, ok := fieldLoad(resolve(v))
+		return ok && (n == "EpicID" || n == "EpicFlag")
+	}
+	var derives func(v ssa.Value, d int, seen map[ssa.Value]bool) bool
+	derives = func(v ssa.Value, d int, seen map[ssa.Value]bool) bool {
+		if v == nil || d > 14 || seen[v] {
+			return false
+		}
+		seen[v] = true
+		if isEpicOpt(v) {
+			return true
+		}
+		switch x := v.(type) {
+		case *ssa.Call:
+			for _, a := range x.Call.Args {
+				if derives(a, d+1, seen) {
+					return true
+				}
+			}
+			if mc, ok := x.Call.Value.(*ssa.MakeClosure); ok {
+				for _, b := range mc.Bindings {
+					if derives(b, d+1, seen) {
+						return true
+					}
+				}
+			}
+		case *ssa.Phi:
+			for _, e := range x.Edges {
+				if derives(e, d+1, seen) {
+					return true
+				}
+			}
+		case *ssa.UnOp:
+			if cell := cellOf(x.X); cell != nil && x.Op == token.MUL {
+				for _, st := range cellStores(cell) {
+					if derives(st.Val, d+1, seen) {
+						return true
+					}
+				}
+				return false
+			}
+			return derives(x.X, d+1, seen)
+		case *ssa.Slice:
+			return derives(x.X, d+1, seen)
+		case *ssa.Extract:
+			return derives(x.Tuple, d+1, seen)
+		case *ssa.ChangeType:
+			return derives(x.X, d+1, seen)
+		case *ssa.FreeVar:
+			if b := bindingOf(x); b != nil {
+				return derives(b, d+1, seen)
+			}
+		case *ssa.Parameter:
+			cs := c.callers[x.Parent()]
+			if len(cs) == 0 {
+				return false
+			}
+			for _, site := range cs {
+				i := paramIndex(x)
+				if i < 0 || i >= len(site.Call.Common().Args) || !derives(site.Call.Common().Args[i], d+1, map[ssa.Value]bool{}) {
+					return false
+				}
+			}
+			return true
+		}
+		return false
+	}
+	// focusedAt: blk of fn runs only where the EpicID option was found non-empty - in fn itself, or at every call of fn
+	// (renderEpic(epicID, readyOnly) called under `if epicID != ""`)
+	var focusedAt func(fn *ssa.Function, blk *ssa.BasicBlock, d int) bool
+	focusedAt = func(fn *ssa.Function, blk *ssa.BasicBlock, d int) bool {
+		focused := edgesWhere(fn, func(a Atom, holds bool) bool {
+			return a.Kind == "const" && !holds && a.C.Value != nil && constStr(a.C) == "" && isEpicOpt(a.X)
+		})
+		if len(focused) > 0 && mustPassEdges(fn, blk, focused) {
+			return true
+		}
+		if d >= 3 || len(c.callers[fn]) == 0 {
+			return false
+		}
+		for _, cs := range c.callers[fn] {
+			if !focusedAt(cs.Fn, cs.Call.Block(), d+1) {
+				return false
+			}
+		}
+		return true
+	}
+	n := 0
+	ord := map[string]int{}
+	for _, s := range sites {
+		if !focusedAt(s.fn, s.call.Block(), 0) {
+			continue
+		}
+		n++
+		fn := c.Name(s.fn)
+		ord[fn]++
+		c.check(derives(s.arg, 0, map[ssa.Value]bool{}), fn, fmt.Sprintf("epic-view-summary#%d", ord[fn]), c.Pos(s.call.Pos()),
+			"under an epic-focused view the summarised list derives from the epic id"+s.via,
+			"this summary is printed under a view focused on one epic, but the list it counts ("+c.canon(s.arg)+s.via+") does not derive from the epic id: it counts tasks of the whole store, so the numbers disagree with the rows above them and with `list --json --epic`")
+	}
+	if n == 0 {
+		c.unk(c.Name(rl), "epic-view-summary#0", c.FnPos(rl), "no summary statistics computed under the epic-focused branch of list (structure not recognised)")
 	}
 }
